@@ -968,7 +968,7 @@ def tabulate_local(code, local, src, scopes=(), domain=range(256), env=None, mor
     return out
 
 
-def tabulate(code, var, src, scopes=(), domain=range(256), is_expr=True, env=None):
+def tabulate(code, var, src, scopes=(), domain=range(256), is_expr=True, env=None, lenient=False):
     """{v: rsx.Outcome} of running `code` (an expression, or the inside of a block) with `var` bound to each v of domain;
     fns and consts are looked up in scopes (innermost first) and src.  Raises ValueError when a decision depends on
     something that cannot be evaluated."""
@@ -977,7 +977,7 @@ def tabulate(code, var, src, scopes=(), domain=range(256), is_expr=True, env=Non
         e = dict(env or {})
         e[var] = v
         try:
-            out[v] = rsx.run(_self_module(), code, e, src, scopes=list(scopes), is_expr=is_expr)
+            out[v] = rsx.run(_self_module(), code, e, src, scopes=list(scopes), is_expr=is_expr, lenient=lenient)
         except rsx.Unknown as ex:
             raise ValueError("cannot evaluate for %s = %r: %s" % (var, v, ex))
     return out
@@ -1808,15 +1808,24 @@ def main():
 
     def rle():
         b = fn_body(enc, "run_length_decode")
-        lt = re.search(r"\bif\s+(\w+)\s*<\s*(" + BYTE + r")\s*\{", b)
-        v = lt.group(1)                                    # the length byte, whatever it is called
-        ge = re.search(r"else\s+if\s+" + v + r"\s*>=\s*(" + BYTE + r")\s*\{", b)
+        # the loop body is RUN for every value of the length byte (an if / else-if chain and a match on ranges are the same
+        # table): literal copy (extend_from_slice) below L, repeated byte (repeat / resize) from R, the rest ends the data
+        wl = re.search(r"\bwhile\b[^{]*\{", b)
+        loop = item_body(b[wl.start():], r"\{", "loop over the runs")
+        lm = re.search(r"let\s+(\w+)\s*(?::\s*u8)?\s*=\s*\*?\w+\[\s*\w+\s*\]\s*;", loop)
+        v = lm.group(1)
+        t = tabulate_local(loop, v, enc, scopes=[b])
+        lit = set(k for k, o in t.items() if o.how == "value" and any("extend_from_slice" in e for e in o.effects))
+        rep = set(k for k, o in t.items() if o.how == "value" and k not in lit and any(re.search(r"\brepeat\(|\.resize\(", e) for e in o.effects))
+        eod = set(k for k, o in t.items() if o.how == "break" and not o.effects)
+        if lit != set(range(0, len(lit))) or not rep or rep != set(range(min(rep), 256)) or lit | rep | eod != set(range(256)):
+            raise ValueError("run classes: %d literal, %d repeat, %d end" % (len(lit), len(rep), len(eod)))
         base = None
-        for m in re.finditer(r"(" + BYTE + r")\s*-\s*(\w+)", b):
-            if is_alias(m.group(2), v, b):
+        for m in re.finditer(r"(" + BYTE + r")\s*-\s*(?:usize::from\(\s*)?(\w+)", loop):
+            if is_alias(m.group(2), v, loop):
                 base = m
                 break
-        return str(int_value(lt.group(2))), str(int_value(ge.group(1))), str(int_value(base.group(1)))
+        return str(len(lit)), str(min(rep)), str(int_value(base.group(1)))
     g.attempt([("rle_lit_below", "N"), ("rle_rep_from", "N"), ("rle_rep_base", "N")], "enc.rs:run_length_decode", rle)
 
     def ptags():
@@ -1833,13 +1842,24 @@ def main():
     g.attempt([("predictor_tags", "list (N * N)")], "enc.rs:PredictorType::from_u8", ptags)
 
     def pngthr():
-        # smallest /Predictor value that selects the PNG un-prediction, and the TIFF value
+        # smallest /Predictor value that selects the PNG un-prediction, and the TIFF value: unpredict is RUN for
+        # /Predictor 0..40; a value selects PNG when what it executes (helpers expanded one level) un-filters rows
+        # (PredictorType::from_u8), TIFF when it does something else than hand the data back
         b = fn_body(enc, "unpredict")
-        loc = re.search(r"let\s+(\w+)\s*=\s*\w+\.predictor\s*;", b)
-        v = r"(?:%s|\w+\.predictor)" % (loc.group(1) if loc else r"\w+\.predictor")
-        m = re.search(r"if\s+" + v + r"\s*(>=|>)\s*(\d+)\s*\{", b)
-        t = re.search(r"else\s+if\s+" + v + r"\s*==\s*(\d+)\s*\{", b)
-        return "%d%%Z" % (int(m.group(2)) + (1 if m.group(1) == ">" else 0)), "%d%%Z" % int(t.group(1))
+        path = re.search(r"\b(\w+\.predictor)\b", b).group(1)
+        t = tabulate(b, path, enc, scopes=[b], domain=range(0, 41), is_expr=False, lenient=True)
+
+        def reach(o):
+            txt = " ".join(o.effects) + " " + (o.value.text if isinstance(o.value, rsx.Opaque) else repr(o.value))
+            for n, hb in callees(txt, enc):
+                txt += " " + hb
+            return txt
+        png = set(k for k, o in t.items() if "PredictorType::from_u8" in reach(o))
+        same = set(k for k, o in t.items() if k not in png and not o.effects and o.value == ("Ok", rsx.Opaque("decoded")))
+        tiff = set(t) - png - same
+        if not png or png != set(range(min(png), 41)) or len(tiff) != 1:
+            raise ValueError("predictor classes: png %r tiff %r" % (sorted(png)[:3], sorted(tiff)))
+        return "%d%%Z" % min(png), "%d%%Z" % min(tiff)
     g.attempt([("png_from", "Z"), ("tiff_pred", "Z")], "enc.rs:unpredict", pngthr)
 
     # further anchors are appended by gen/extract_*.py modules
